@@ -155,3 +155,62 @@ Proof.
   - rewrite Hva', Hva, Hcab, Hvb. field. repeat split; assumption.
   - rewrite Hcab', Hcab, Hvb. field. repeat split; assumption.
 Qed.
+
+(* ================= weighted least squares: the WHOLE result is equivariant too =================
+   (same uncertainties u(y_i)): ssr' = ga^2 ssr;  u(b') = u(b)/|al|;
+   u(a')^2 = u(a)^2 - 2 (be/al) cov(a,b) + (be/al)^2 u(b)^2;  cov(a',b') = (cov(a,b) - (be/al) u(b)^2)/al
+   -- the covariance matrix (X^T W X)^-1 does not involve y, so ga does not enter it *)
+Theorem wls_full_equivariant (l : list pt) al be ga de dof fs fs' :
+  al <> 0 ->
+  g_line_fit_wls RNum (map px l) (map py l) (map pu l) dof = Ok fs ->
+  g_line_fit_wls RNum (map (fun p => al * px p + be) l) (map (fun p => ga * py p + de) l) (map pu l) dof = Ok fs' ->
+  let cab := fs_r fs * fs_au fs * fs_bu fs in
+  fs_ssr fs' = ga * ga * fs_ssr fs /\
+  fs_bu fs' = fs_bu fs / Rabs al /\
+  fs_au fs' * fs_au fs' = fs_au fs * fs_au fs - 2 * (be / al) * cab + (be / al) * (be / al) * (fs_bu fs * fs_bu fs) /\
+  fs_r fs' * fs_au fs' * fs_bu fs' = (cab - be / al * (fs_bu fs * fs_bu fs)) / al.
+Proof.
+  intros Hal H H'. cbv zeta.
+  destruct (wls_values_equivariant l al be ga de dof fs fs' Hal H H') as (Eb & Ea & _ & _).
+  apply wls_sound in H. destruct H as (l1 & Ex & Ey & Eu & _ & Hspec & _ & _).
+  apply wls_sound in H'. destruct H' as (l2 & Ex' & Ey' & Eu' & _ & Hspec' & _ & _).
+  set (T := shift_scale al be ga de).
+  assert (E1 : l1 = l) by (symmetry; apply pts_eq; assumption).
+  assert (E2 : l2 = map T l).
+  { symmetry; apply pts_eq; rewrite map_map.
+    - rewrite <- Ex'. apply map_ext. intros p. reflexivity.
+    - rewrite <- Ey'. apply map_ext. intros p. reflexivity.
+    - rewrite <- Eu'. apply map_ext. intros p. reflexivity. }
+  subst l1 l2.
+  assert (HuT : forall p, pu (T p) = pu p) by (intros p; reflexivity).
+  assert (B0 : wS (map T l) = wS l) by (unfold wS; rewrite Sw_map by exact HuT; reflexivity).
+  assert (B1 : wSx (map T l) = al * wSx l + be * wS l).
+  { unfold wSx, wS. rewrite Sw_map by exact HuT. apply Sw_lin2. intros p _. unfold T, shift_scale, px. simpl. ring. }
+  assert (B3 : wSxx (map T l) = al * al * wSxx l + 2 * al * be * wSx l + be * be * wS l).
+  { unfold wSxx, wSx, wS. rewrite Sw_map by exact HuT. apply Sw_lin3. intros p _. unfold T, shift_scale, px. simpl. ring. }
+  destruct Hspec as [Hw _ _ Hd Hva Hvb Hcab Hsa Hsb Hssr].
+  destruct Hspec' as [_ _ _ Hd' Hva' Hvb' Hcab' Hsa' Hsb' Hssr'].
+  assert (S2 : fs_ssr fs' = ga * ga * fs_ssr fs).
+  { rewrite Hssr', Hssr. rewrite Sw_map by exact HuT. unfold Sw. rewrite <- Sm_scal. apply Sm_ext. intros p Hp.
+    rewrite Ea, Eb. unfold wres, T, shift_scale, px, py, pu. simpl.
+    pose proof (Hw p Hp) as Hu. unfold pu in Hu. field. split; assumption. }
+  unfold wDet in *. rewrite B0, B1, B3 in Hva', Hvb', Hcab', Hd'.
+  set (D := wS l * wSxx l - wSx l * wSx l) in *.
+  assert (HD' : wS l * (al * al * wSxx l + 2 * al * be * wSx l + be * be * wS l)
+                - (al * wSx l + be * wS l) * (al * wSx l + be * wS l) = al * al * D) by (unfold D; ring).
+  rewrite HD' in Hva', Hvb', Hcab', Hd'.
+  assert (HD0 : D <> 0) by lra.
+  split; [exact S2|].
+  assert (Vb : fs_bu fs' * fs_bu fs' = fs_bu fs * fs_bu fs / (al * al)).
+  { rewrite Hvb', Hvb. field. split; assumption. }
+  assert (Hab : 0 < Rabs al) by (apply Rabs_pos_lt; exact Hal).
+  split.
+  { assert (Hq : 0 <= fs_bu fs / Rabs al) by (apply Rlt_le, Rdiv_lt_0_compat; assumption).
+    assert (Hs : fs_bu fs' * fs_bu fs' = (fs_bu fs / Rabs al) * (fs_bu fs / Rabs al)).
+    { rewrite Vb. replace (fs_bu fs / Rabs al * (fs_bu fs / Rabs al)) with (fs_bu fs * fs_bu fs / (Rabs al * Rabs al)) by (field; lra).
+      rewrite <- Rabs_mult, Rabs_pos_eq by nra. reflexivity. }
+    apply Rsqr_inj; [apply Rlt_le; exact Hsb'|exact Hq|exact Hs]. }
+  split.
+  - rewrite Hva', Hva, Hcab, Hvb. field. split; assumption.
+  - rewrite Hcab', Hcab, Hvb. field. split; assumption.
+Qed.
